@@ -257,6 +257,12 @@ func (s *PfcpServer) Stop() {
 			s.log.Errorf("Stop pfcp server err: %+v", err)
 		}
 	}
+	// Wait until the main loop has finished the message it is processing and has
+	// stopped: it may be in the middle of a data-plane call, and the caller closes
+	// the driver next.
+	if s.done != nil {
+		<-s.done
+	}
 }
 
 func (s *PfcpServer) NewNode(id string, addr net.Addr, driver forwarder.Driver) *RemoteNode {
